@@ -1130,11 +1130,11 @@ def run(check):
     named = []
     for name, spec in fixed_specs():
         named.append((name, spec))
-    n = 40 if tier == 'quick' else 400
+    n = 120 if tier == 'quick' else 600
     for i in range(n):
         size = 's' if i % 3 == 0 else ('m' if i % 3 == 1 else 'l')
         named.append(('gen%d' % i, gen_spec(rng, size)))
-    zeep_budget = 25 if tier == 'quick' else 200
+    zeep_budget = 60 if tier == 'quick' else 300
     for idx, (name, spec) in enumerate(named):
         process(check, name, spec, cases, want_zeep=idx < zeep_budget)
         if idx < 6:
